@@ -238,6 +238,39 @@ def arr_eq_at(a, b, idx):
     return sym.eq(a.at(*idx), b.at(*idx))
 
 
+class RunnerState(dict):
+    """the state dictionary the runner hands to update(): step, time, dt - and whatever further bookkeeping the runner keeps there (it is the
+    runner's dictionary).  The contract of update() is stated for EVERY such extra entry: a key update() asks for that is not one of the three is
+    either absent or holds an arbitrary value (the path forks), so nothing the step promises may depend on it."""
+    KNOWN = ("step", "time", "dt")
+
+    def _extra(self, key, default):
+        present = bool(SB(sym.FreshBool(f"runner_state_has_{key}")))
+        if not present:
+            return False, default
+        if isinstance(default, bool) or default is None:
+            return True, bool(SB(sym.FreshBool(f"runner_state_{key}")))
+        return True, SR(sym.FreshReal(f"runner_state_{key}"))
+
+    def get(self, key, default=None):
+        if key in self.KNOWN or dict.__contains__(self, key):
+            return dict.get(self, key, default)
+        return self._extra(key, default)[1]
+
+    def __contains__(self, key):
+        if key in self.KNOWN or dict.__contains__(self, key):
+            return dict.__contains__(self, key)
+        return self._extra(key, None)[0]
+
+    def __getitem__(self, key):
+        if key in self.KNOWN or dict.__contains__(self, key):
+            return dict.__getitem__(self, key)
+        present, v = self._extra(key, None)
+        if not present:
+            raise KeyError(key)
+        return v
+
+
 def run_update(mutate=None, screening=False, dynamic=False, prefixes=("C",)):
     V = vcm.VC()
     L = load(mutate, V)
@@ -297,7 +330,7 @@ def run_update(mutate=None, screening=False, dynamic=False, prefixes=("C",)):
         step = SI(z3.Int("step"))
         dt_prev = SR(R("dt_prev"))
         assume(dt_prev > 0, step >= 0)
-        state = {"step": step, "time": time, "dt": dt_prev}
+        state = RunnerState({"step": step, "time": time, "dt": dt_prev})
         rs = RunningStateStub()
         g_e = (SI(FreshInt("ge")), SI(FreshInt("gc")))
         assume(g_e[0] >= 0, g_e[0] < E, g_e[1] >= 0, g_e[1] < 2)
